@@ -2,25 +2,26 @@ package basestore
 
 // verifHarnesses lists the harness entry points of this package for native replay.
 var verifHarnesses = map[string]func(){
-	"VerifC19Step":             VerifC19Step,
-	"VerifC19Rest":             VerifC19Rest,
-	"VerifC12Heads":            VerifC12Heads,
-	"VerifC17Concurrent":       VerifC17Concurrent,
-	"VerifC15Load":             VerifC15Load,
-	"VerifC19History":          VerifC19History,
-	"VerifC05Crash":            VerifC05Crash,
-	"VerifC09Isolation":        VerifC09Isolation,
-	"VerifC10Mixed":            VerifC10Mixed,
-	"VerifC11Abort":            VerifC11Abort,
-	"VerifC11CancelAnywhere":   VerifC11CancelAnywhere,
-	"VerifC03Forged":           VerifC03Forged,
-	"VerifC04Tampered":         VerifC04Tampered,
-	"VerifC18CloseBlockedLoad": VerifC18CloseBlockedLoad,
-	"VerifC13Concurrent":       VerifC13Concurrent,
-	"VerifC13PendingQueue":     VerifC13PendingQueue,
-	"VerifC04ForeignChain":     VerifC04ForeignChain,
-	"VerifC02Heal":             VerifC02Heal,
-	"VerifC18Close":            VerifC18Close,
-	"VerifC13Snapshot":         VerifC13Snapshot,
-	"VerifC03LocalWrite":       VerifC03LocalWrite,
+	"VerifC19Step":                  VerifC19Step,
+	"VerifC19Rest":                  VerifC19Rest,
+	"VerifC12Heads":                 VerifC12Heads,
+	"VerifC17Concurrent":            VerifC17Concurrent,
+	"VerifC15Load":                  VerifC15Load,
+	"VerifC19History":               VerifC19History,
+	"VerifC05Crash":                 VerifC05Crash,
+	"VerifC09Isolation":             VerifC09Isolation,
+	"VerifC10Mixed":                 VerifC10Mixed,
+	"VerifC11Abort":                 VerifC11Abort,
+	"VerifC11CancelAnywhere":        VerifC11CancelAnywhere,
+	"VerifC03Forged":                VerifC03Forged,
+	"VerifC04Tampered":              VerifC04Tampered,
+	"VerifC18CloseBlockedLoad":      VerifC18CloseBlockedLoad,
+	"VerifC13Concurrent":            VerifC13Concurrent,
+	"VerifC17WritersAndReplication": VerifC17WritersAndReplication,
+	"VerifC13PendingQueue":          VerifC13PendingQueue,
+	"VerifC04ForeignChain":          VerifC04ForeignChain,
+	"VerifC02Heal":                  VerifC02Heal,
+	"VerifC18Close":                 VerifC18Close,
+	"VerifC13Snapshot":              VerifC13Snapshot,
+	"VerifC03LocalWrite":            VerifC03LocalWrite,
 }
